@@ -235,11 +235,11 @@ def add_sys_path(path):
     if not path_obj.exists():
         # remember it didn't exist: it might well exist by the next time a
         # pipeline loads from it, and then it does have to go into sys.path.
-        _known_dirs.add(path)
+        # missing first, known second: a concurrent caller must never see
+        # "known and not missing" for a path that is not in sys.path.
         _missing_dirs.add(path)
+        _known_dirs.add(path)
         return
-
-    _missing_dirs.discard(path)
 
     # sys path doesn't accept Path
     path_str = str(path_obj)  # .resolve(True)? instead for extended paths?
@@ -250,6 +250,9 @@ def add_sys_path(path):
             sys.path.append(path_str)
 
     _known_dirs.add(path)
+    # only now: a concurrent caller must not take the early return above
+    # before the path is in sys.path.
+    _missing_dirs.discard(path)
 
 
 def get_module(module_abs_import):
